@@ -1,4 +1,5 @@
 """Shared machinery of the /verif checks: Go overlay harness, Lean build/audit, line protocol, evidence, verdicts."""
+import atexit
 import fcntl
 import hashlib
 import json
@@ -306,6 +307,7 @@ def lean_check(pid, gen_modules=(), clean=False, leanchecker=False, extra=()):
             failed_thms = [t for t in thms if re.search(r"\b" + re.escape(t) + r"\b", log)]
             res["failed_theorems"] = failed_thms
             return res
+        _keep_driver_copy()
         audit = os.path.join(LEAN, ".lake", f"audit_{pid}.lean")
         with open(audit, "w") as fh:
             fh.write(f"import {mod}\nopen Heimdall.Props.{pid}\n")
@@ -343,7 +345,29 @@ def lean_check(pid, gen_modules=(), clean=False, leanchecker=False, extra=()):
     return res
 
 
+_DRIVER_COPY = None
+
+
+def _keep_driver_copy():
+    """Called with the Lean lock held, right after `lake build … driver`: checks running side by side against
+    different trees re-link the shared binary after the lock is released, so every check process runs its own copy."""
+    global _DRIVER_COPY
+    src = os.path.join(LEAN, ".lake", "build", "bin", "driver")
+    try:
+        if _DRIVER_COPY is None:
+            d = tempfile.mkdtemp(prefix="verif-driver-")
+            atexit.register(shutil.rmtree, d, True)
+            _DRIVER_COPY = os.path.join(d, "driver")
+        tmp = _DRIVER_COPY + ".new"
+        shutil.copy2(src, tmp)
+        os.replace(tmp, _DRIVER_COPY)
+    except OSError:
+        _DRIVER_COPY = None
+
+
 def driver_cmd():
+    if _DRIVER_COPY is not None and os.path.exists(_DRIVER_COPY):
+        return [_DRIVER_COPY]
     return [os.path.join(LEAN, ".lake", "build", "bin", "driver")]
 
 
